@@ -647,7 +647,14 @@ def _scan_insert_from_select_cols(
     toplevel,
     kw,
 ):
-    cols = [stmt.table.c[_column_as_key(name)] for name in stmt._select_names]
+    try:
+        cols = [
+            stmt.table.c[_column_as_key(name)] for name in stmt._select_names
+        ]
+    except KeyError as err:
+        raise exc.CompileError(
+            "Unconsumed column names: %s" % (err.args[0],)
+        ) from err
 
     assert compiler.stack[-1]["selectable"] is stmt
 
